@@ -245,7 +245,7 @@ def check_example(path, rng, n_worlds, perturbed):
         seed = rng.randrange(10 ** 9)
         dim = rng.choice([1, 2, 2, 3, 4, 6])
         try:
-            t, perf = CW.best_feasible_run(code, fname, kw, seed, dim)
+            t, perf, knob = CW.tuned_run(code, fname, kw, seed, dim)
         except (CW.Unsupported, np_linalg_error()):
             continue
         except Exception:
@@ -254,7 +254,7 @@ def check_example(path, rng, n_worlds, perturbed):
             continue
         runs += 1
         if perf > worst:
-            worst, worst_case = perf, dict(world_seed=seed, dim=dim, scaling=t)
+            worst, worst_case = perf, dict(world_seed=seed, dim=dim, scaling=t, knob=knob)
     rec = dict(example=rel, kwargs=kw, pepit_value=tau, worst_real_run=worst if runs else None, worlds=runs,
                **(worst_case or {}))
     if runs == 0:
@@ -355,6 +355,6 @@ def replay(payload):
     code, fname, mb = CW.load_example(path)
     kw = payload["kwargs"]
     tau, _ = real_value(path, fname, kw)
-    t, perf = CW.best_feasible_run(code, fname, kw, payload["world_seed"], payload["dim"])
+    t, perf = CW.best_feasible_run(code, fname, kw, payload["world_seed"], payload["dim"], payload.get("knob", 1.0))
     print("example %s kwargs %s: PEPit value %r, real run %r" % (ex, kw, tau, perf))
     return perf > tau + 2e-3 * abs(tau) + 2e-5
